@@ -9,4 +9,8 @@ cargo build --release --offline 2>&1 | tail -3
 cargo build --release --offline -p mc --manifest-path /repo/Cargo.toml --target-dir /verif/target/repo-tools 2>&1 | tail -2
 mkdir -p /verif/target/solverbin
 for n in bitwuzla yices-smt2 z3 cvc5; do ln -sf /verif/target/release/refsolver /verif/target/solverbin/$n; done
+if [ "${1:-}" = "--selftest" ]; then
+  # oracle self-check: reference bit-vector semantics vs z3 on random ground terms
+  /verif/target/release/probe selftest 3000
+fi
 echo "setup ok"
